@@ -346,14 +346,14 @@ func init() {
 			if x.IsC() {
 				return Ptr{C: m.newCell(Big{V: big.NewInt(x.Signed())})}
 			}
-			return m.newBig(m.resize(x, 128, true).T())
+			return m.newBig(m.resize(x, bigW, true).T())
 		},
 		"(*math/big.Int).SetUint64": func(m *Machine, a []Val) Val {
 			x := a[1].(Int)
 			if x.IsC() {
 				bigOf(m, a[0]).V = Big{V: new(big.Int).SetUint64(x.C)}
 			} else {
-				bigOf(m, a[0]).V = Big{T: m.resize(x, 128, false).T()}
+				bigOf(m, a[0]).V = Big{T: m.resize(x, bigW, false).T()}
 			}
 			return a[0]
 		},
@@ -362,7 +362,7 @@ func init() {
 			if x.IsC() {
 				bigOf(m, a[0]).V = Big{V: big.NewInt(x.Signed())}
 			} else {
-				bigOf(m, a[0]).V = Big{T: m.resize(x, 128, true).T()}
+				bigOf(m, a[0]).V = Big{T: m.resize(x, bigW, true).T()}
 			}
 			return a[0]
 		},
@@ -376,8 +376,8 @@ func init() {
 			if !ln.IsC() {
 				m.incon("big.SetBytes with large symbolic length")
 			}
-			if ln.C > 15 {
-				m.incon("big.SetBytes > 15 bytes")
+			if ln.C > bigW/8-1 {
+				m.incon("big.SetBytes > 31 bytes")
 			}
 			acc := bigZero
 			allC := true
@@ -390,12 +390,12 @@ func init() {
 				} else {
 					allC = false
 				}
-				acc = "(concat ((_ extract 119 0) " + acc + ") " + b.T() + ")"
+				acc = fmt.Sprintf("(concat ((_ extract %d 0) %s) %s)", bigW-9, acc, b.T())
 			}
 			if allC {
 				bigOf(m, a[0]).V = Big{V: cv}
 			} else {
-				bigOf(m, a[0]).V = Big{T: m.ex.Name("big", "(_ BitVec 128)", acc)}
+				bigOf(m, a[0]).V = Big{T: m.ex.Name("big", fmt.Sprintf("(_ BitVec %d)", bigW), acc)}
 			}
 			return a[0]
 		},
@@ -436,7 +436,7 @@ func init() {
 			if x.V != nil {
 				return CB(x.V.IsInt64())
 			}
-			return Bool{S: "(= " + x.T + " ((_ sign_extend 64) ((_ extract 63 0) " + x.T + ")))"}
+			return Bool{S: fmt.Sprintf("(= %s ((_ sign_extend %d) ((_ extract 63 0) %s)))", x.T, bigW-64, x.T)}
 		},
 		"(*math/big.Int).Sign": func(m *Machine, a []Val) Val {
 			x := bigV(m, a[0])
@@ -685,7 +685,7 @@ func init() {
 			if i.IsC() {
 				return Str{C: strconv.FormatInt(i.Signed(), 10)}
 			}
-			return m.ufBig(m.resize(i, 128, true).T())
+			return m.ufBig(m.resize(i, bigW, true).T())
 		},
 		"path/filepath.Join": func(m *Machine, a []Val) Val {
 			var parts []string
@@ -884,7 +884,7 @@ func (m *Machine) now() Int {
 // is actually compared through the string theory (strEq falls back from the structural decision).
 func (m *Machine) ufBig(t string) Str {
 	if _, ok := m.notes["decl:bigstr"]; !ok {
-		m.ex.z.Send("(declare-fun bigstr ((_ BitVec 128)) String)")
+		m.ex.z.Send(fmt.Sprintf("(declare-fun bigstr ((_ BitVec %d)) String)", bigW))
 		m.notes["decl:bigstr"] = CB(true)
 	}
 	nm := m.ex.Name("bigs", "String", "(bigstr "+t+")")
